@@ -258,7 +258,9 @@ theorem fixed_rewatch_is_noop (s : Watch.State) (c : Nat) (k : Key) (w : W)
 /-! ## Witnesses: where the code as it is violates the full statement (each replayed over TCP by lib/c08.py)
 
   Every history below is `Safe`, the watcher stays quiet, the stored entry of the watched key changes in the
-  third step — all hypotheses of `watch_sound` except the table condition — and EXEC executes. -/
+  third step — all hypotheses of `watch_sound` except the table condition — and EXEC executes.
+  The four table witnesses are stated under "the table says the function does not mark this key" (true on the
+  current tree: `tree_nonmarking_writes`), so that applying a fix only requires shortening `exceptions`. -/
 
 /-- a marking write (SET by another client) aborts: the positive control -/
 theorem set_aborts : execAfter Q.code hSet 1010 = .nil ∧ judged Q.code hSet 1010 = [(.nil, .mustNil)] := by decide
@@ -269,6 +271,7 @@ theorem other_key_runs : execAfter Q.code hOtherKey 1010 = .array 0 ∧ judged Q
 
 /-- EXPIRE / PEXPIRE on the watched key: EXEC executes, the Spec demands nil. -/
 theorem watch_sound_fails_expire :
+    (marksOf "expire" "key" = false ∧ marksOf "pexpire" "key" = false) →
     Safe Q.code State.init hExpire = true ∧
     (run Q.code State.init (hExpire.take 3)).entry 0 kWk ≠ (run Q.code State.init (hExpire.take 2)).entry 0 kWk ∧
     execAfter Q.code hExpire 1010 = .array 0 ∧ judged Q.code hExpire 1010 = [(.array 0, .mustNil)] ∧
@@ -276,12 +279,14 @@ theorem watch_sound_fails_expire :
 
 /-- PERSIST of the watched key's deadline -/
 theorem watch_sound_fails_persist :
+    marksOf "persist" "key" = false →
     Safe Q.code State.init hPersist = true ∧
     (run Q.code State.init (hPersist.take 3)).entry 0 kWk ≠ (run Q.code State.init (hPersist.take 2)).entry 0 kWk ∧
     execAfter Q.code hPersist 1010 = .array 0 ∧ judged Q.code hPersist 1010 = [(.array 0, .mustNil)] := by decide
 
 /-- RENAME away from the watched key (renaming TO it does abort) -/
 theorem watch_sound_fails_rename_source :
+    marksOf "rename" "old_key" = false →
     Safe Q.code State.init hRenameSrc = true ∧
     (run Q.code State.init (hRenameSrc.take 3)).entry 0 kWk ≠ (run Q.code State.init (hRenameSrc.take 2)).entry 0 kWk ∧
     execAfter Q.code hRenameSrc 1010 = .array 0 ∧ judged Q.code hRenameSrc 1010 = [(.array 0, .mustNil)] ∧
@@ -289,6 +294,7 @@ theorem watch_sound_fails_rename_source :
 
 /-- FLUSHDB / FLUSHALL removing the watched key -/
 theorem watch_sound_fails_flush :
+    flushMarks = false →
     Safe Q.code State.init hFlush = true ∧
     (run Q.code State.init (hFlush.take 3)).entry 0 kWk ≠ (run Q.code State.init (hFlush.take 2)).entry 0 kWk ∧
     execAfter Q.code hFlush 1010 = .array 0 ∧ judged Q.code hFlush 1010 = [(.array 0, .mustNil)] ∧
